@@ -98,16 +98,23 @@ TwinGroup(fn) ==
     [] fn \in {"NewKeyCertificate", "KeyCertificateFromCertificate"} -> "keycert"
     [] fn \in {"ReadMapping", "NewMapping"} -> "mapping"
     [] fn \in {"ReadDate", "NewDate"} -> "date"
+    [] fn \in {"ReadLease", "NewLeaseFromBytes"} -> "lease"
+    [] fn \in {"ReadLease2", "NewLease2FromBytes"} -> "lease2"
+    [] fn \in {"ReadSignature", "NewSignature"} -> "signature"
+    [] fn \in {"ReadSessionKey", "NewSessionKey"} -> "sessionkey"
+    [] fn \in {"ReadSessionTag", "NewSessionTag"} -> "sessiontag"
+    [] fn \in {"ReadECIESSessionTag", "NewECIESSessionTag"} -> "eciestag"
+    [] fn \in {"ReadInteger", "NewInteger"} -> "integer"
     [] OTHER -> fn
 
-JTwins(e) ==
+JTwinsWith(e, Acc2(_, _, _, _)) ==
   LET in == e["in"]
       rs == e.r.results
       n == Len(rs)
       cls == IF "cls" \in DOMAIN e THEN e.cls ELSE "-"
       Agree(i, j) == /\ rs[i].ok = rs[j].ok
                      /\ (rs[i].ok => rs[i].ser = rs[j].ser /\ rs[i].rem = rs[j].rem)
-      each == [i \in 1..n |-> JReadOne(rs[i].fn, in, rs[i], e) \o JAccOne(rs[i].fn, in, rs[i], e)]
+      each == [i \in 1..n |-> JReadOne(rs[i].fn, in, rs[i], e) \o JAccOne(rs[i].fn, in, rs[i], e) \o Acc2(rs[i].fn, in, rs[i], e)]
       flat == LET F[i \in 0..n] == IF i = 0 THEN << >> ELSE F[i - 1] \o each[i] IN F[n]
       tw == [k \in 1..(n * n) |->
                LET i == ((k - 1) \div n) + 1  j == ((k - 1) % n) + 1 IN
